@@ -1,7 +1,7 @@
 use crate::parse::ast::Node;
 use crate::parse::ast::AST;
 use crate::parse::block::parse_block;
-use crate::parse::definition::{parse_definition, parse_fun_arg};
+use crate::parse::definition::{check_parameters, parse_definition, parse_fun_arg};
 use crate::parse::iterator::LexIterator;
 use crate::parse::lex::token::Token;
 use crate::parse::operation::parse_expression;
@@ -30,6 +30,7 @@ pub fn parse_class(it: &mut LexIterator) -> ParseResult {
             }
         })?;
         it.eat(&Token::RRBrack, "class arguments")?;
+        check_parameters(&args)?;
     }
 
     let mut parents = vec![];
